@@ -6,9 +6,11 @@
 //!          fd    = DeleteEdits::full_delete
 //!          pm    = predicate mode: 0 = the predicates of corrupt_spelling
 //!                  (alphabetic|punctuation / both alphabetic), 1 = always true
-//!          itab  = ((prev cur ((clusters pos) ...)) ...)       InsertEdits::insertions
-//!          rtab  = ((prev cur next ((clusters pos) ...)) ...)  ReplaceEdits::replacements
-//!          seed  = ChaCha8Rng::seed_from_u64 (the rng is never observed)
+//!          itab  = ((prev cur ((clusters pos weight) ...)) ...)       InsertEdits::insertions
+//!          rtab  = ((prev cur next ((clusters pos weight) ...)) ...)  ReplaceEdits::replacements
+//!                  weight = the f64 weight as (0 m e) = m * 2^e; pos = weight > 0
+//!          seed  = ChaCha8Rng::seed_from_u64: the model computes every draw from it (exact line);
+//!                  the relational line does not look at it
 //!          steps = ((w ex cd cs) ...) per call of the chain: real clusters of the word,
 //!                  exclusion set (sorted), can_delete per position, can_swap per adjacent pair.
 //!                  steps[0].w / steps[0].ex are primary, everything else is derived by
@@ -21,7 +23,8 @@
 //!                  (all clusters of the pool glued in every order); compared by `agree`
 //!          All cluster lists (words, table strings, returned words) come from unicode-segmentation and
 //!          are compared with the model's `segment` by `agree`.
-//! output = (probe chain)
+//! output = ((probe chain) pos)
+//!          pos   = (block-hi block-lo offset): get_word_pos of the generator after the last call
 //!          probe = for idx in 0..len+1 of the first word: (InsertEdits::get_edits, ReplaceEdits::get_edits)
 //!                  each () | (((string pos) ...)); -2 = ReplaceEdits on the empty word (not called)
 //!          chain = ((w' ex') ...), w' = real clusters of the returned word; (-777) = panic
@@ -33,7 +36,10 @@
 //!          corrupt_spelling derives from them (re-derived here the same way, so the model gets them);
 //!          words = ASCII words of the text; info = ((char alphabetic punctuation) ...);
 //!          charmode 0: char_edit_prob 0 (one edit per word), 1: char_edit_prob 1 (len edits per word)
-//! output = words of the corrupted text | (-777)
+//!          The order of the edit strings inside a table entry is the one corrupt_spelling produces
+//!          (falling frequency, ties by dictionary line); weights = freq.powf(1/2).
+//! output = (run1 run2): words of the corrupted text | (-777), for two independent runs (fresh closure,
+//!          dictionary loaded again) on the same text and seed
 use rand::SeedableRng;
 use rand_chacha::ChaCha8Rng;
 use std::borrow::Cow;
@@ -48,7 +54,59 @@ use vh::*;
 #[path = "../seam.rs"]
 mod seam;
 
-type Edits = Vec<(String, bool)>;
+/// edit strings of one table entry with their f64 weights (the flag "weight > 0" of the relational
+/// model is derived from the weight)
+type Edits = Vec<(String, f64)>;
+
+/// f64 weight on the wire: (0 m e) = m * 2^e canonical (-0.0 is sent as zero), (1 0 0) +inf,
+/// (2 0 0) NaN, (3 0 0) negative (RNG_Model.v_f64w)
+fn f64_val(x: f64) -> Val {
+    let t = |k: i64, m: i64, e: i64| Val::L(vec![Val::I(k), Val::I(m), Val::I(e)]);
+    if x.is_nan() {
+        t(2, 0, 0)
+    } else if x == f64::INFINITY {
+        t(1, 0, 0)
+    } else if x < 0.0 {
+        t(3, 0, 0)
+    } else {
+        let b = x.to_bits() & !(1u64 << 63);
+        let (e, f) = ((b >> 52) as i64, (b & ((1u64 << 52) - 1)) as i64);
+        if e == 0 {
+            t(0, f, -1074)
+        } else {
+            t(0, f + (1i64 << 52), e - 1075)
+        }
+    }
+}
+
+/// inverse of `f64_val` on canonical finite non-negative values; everything else is outside the domain
+fn val_f64(v: &Val) -> Option<f64> {
+    let l = v.as_l()?;
+    if l.len() != 3 {
+        return None;
+    }
+    let (k, m, e) = (l[0].as_i()?, l[1].as_i()?, l[2].as_i()?);
+    if k != 0 {
+        return None;
+    }
+    if (0..1i64 << 52).contains(&m) && e == -1074 {
+        Some(f64::from_bits(m as u64))
+    } else if (1i64 << 52..1i64 << 53).contains(&m) && (-1074..=971).contains(&e) {
+        Some(f64::from_bits((((e + 1075) as u64) << 52) | (m as u64 - (1u64 << 52))))
+    } else {
+        None
+    }
+}
+
+/// the weights of the first version of this harness (inputs without a weight field): 1, 2, 3, 1, ... for
+/// positive edits, 0 otherwise
+fn legacy_weight(i: usize, pos: bool) -> f64 {
+    if pos {
+        1.0 + (i % 3) as f64
+    } else {
+        0.0
+    }
+}
 
 #[derive(Clone, Debug)]
 struct Cfg {
@@ -111,10 +169,7 @@ impl Cache {
 }
 
 fn weights(es: &Edits) -> EditsAndWeights {
-    (
-        es.iter().map(|(s, _)| s.clone()).collect(),
-        es.iter().enumerate().map(|(i, (_, p))| if *p { 1.0 + (i % 3) as f64 } else { 0.0 }).collect(),
-    )
+    (es.iter().map(|(s, _)| s.clone()).collect(), es.iter().map(|(_, w)| *w).collect())
 }
 
 fn build_tables(cfg: &Cfg) -> (InsertEdits<'static>, ReplaceEdits<'static>) {
@@ -224,8 +279,8 @@ fn edit_safe_rs(cfg: &Cfg, w0: &str) -> bool {
     let mut pool: Vec<String> = split(w0, true);
     if cfg.kinds[0] {
         for (_, _, es) in &cfg.itab {
-            for (e, pos) in es {
-                if *pos {
+            for (e, wt) in es {
+                if *wt > 0.0 {
                     pool.extend(split(e, true));
                 }
             }
@@ -233,8 +288,8 @@ fn edit_safe_rs(cfg: &Cfg, w0: &str) -> bool {
     }
     if cfg.kinds[2] {
         for (_, _, _, es) in &cfg.rtab {
-            for (e, pos) in es {
-                if *pos {
+            for (e, wt) in es {
+                if *wt > 0.0 {
                     pool.extend(split(e, true));
                 }
             }
@@ -411,12 +466,17 @@ fn derive(cfg: &Cfg, w0: &str, ex0: &[usize], k: usize, cache: &mut Cache) -> De
     ts.sort();
     tags.extend(ts);
     tags.push(format!("k{}", steps.len()));
-    Derived { steps, xs, ps, out: Val::L(vec![probe, Val::L(chain)]), tags }
+    // the position of the generator after the last call: (block-hi block-lo offset) as RNG_Model.get_word_pos
+    let wp = rng.get_word_pos();
+    let block = (wp / 16) as u64;
+    let pos = Val::L(vec![Val::I((block >> 32) as i64), Val::I((block & 0xffff_ffff) as i64), Val::I((wp % 16) as i64)]);
+    tags.push(format!("words{}", wp.min(9)));
+    Derived { steps, xs, ps, out: Val::L(vec![Val::L(vec![probe, Val::L(chain)]), pos]), tags }
 }
 
 // ------------------------------------------------------------------ val <-> cfg
 fn edits_to_val(es: &Edits, g: bool) -> Val {
-    Val::L(es.iter().map(|(s, p)| Val::L(vec![Val::clusters(s, g), Val::b(*p)])).collect())
+    Val::L(es.iter().map(|(s, w)| Val::L(vec![Val::clusters(s, g), Val::b(*w > 0.0), f64_val(*w)])).collect())
 }
 
 fn cfg_to_val(cfg: &Cfg, steps: Vec<Val>, xs: Vec<Val>, ps: bool) -> Val {
@@ -445,14 +505,22 @@ fn cfg_to_val(cfg: &Cfg, steps: Vec<Val>, xs: Vec<Val>, ps: bool) -> Val {
 }
 
 fn val_edits(v: &Val) -> Option<Edits> {
-    let mut es = vec![];
-    for e in v.as_l()? {
+    let mut es: Edits = vec![];
+    for (i, e) in v.as_l()?.iter().enumerate() {
         let s = e.nth(0)?.clusters_to_string()?;
         let p = e.nth(1)?.as_bool()?;
-        es.push((s, p));
+        let w = match e.nth(2) {
+            Some(wv) => val_f64(wv)?,
+            None => legacy_weight(i, p),
+        };
+        es.push((s, w));
     }
-    // WeightedIndex::new panics on an empty list or an all-zero list: outside the domain
-    if es.is_empty() || !es.iter().any(|(_, p)| *p) {
+    // WeightedIndex::new panics on an empty list, an all-zero list or an infinite total: outside the
+    // domain. A SUBNORMAL total is outside the domain too: rand's WeightedIndex<f64> then returns
+    // zero-weight indices (the sample rounds up to the total; notes/RNG.md), which the relational
+    // model excludes.
+    let total: f64 = es.iter().map(|(_, w)| *w).sum();
+    if es.is_empty() || !total.is_finite() || total < f64::MIN_POSITIVE {
         return None;
     }
     Some(es)
@@ -524,12 +592,21 @@ struct E2e {
 
 /// the tables corrupt_spelling builds from the 3-gram dictionary (src/data/preprocessing.rs):
 /// insertions[(prev, next)] = all cur; replacements[(prev, cur, next)] = the other cur of (prev, next)
+///
+/// The ORDER of the edit strings inside an entry decides which one a `WeightedIndex` sample names:
+/// corrupt_spelling pushes them in the order `dict.items().sorted_by_key(..)` yields, i.e. by falling
+/// frequency and, among equal frequencies, by the dictionary line ("prev cur next") — the order the
+/// exact line of the correspondence checks. Weight = freq.powf(1.0 / temperature), temperature 2.0.
 fn e2e_tables(t: &[(String, String, String, usize)]) -> (Vec<(String, String, Edits)>, Vec<(String, String, String, Edits)>) {
+    let mut sorted: Vec<&(String, String, String, usize)> = t.iter().collect();
+    sorted.sort_by_key(|(p, c, n, f)| (std::cmp::Reverse(*f), format!("{p} {c} {n}")));
+    let art_temp: f64 = 2.0;
     let mut itab: Vec<(String, String, Edits)> = vec![];
-    for (p, c, n, _) in t {
+    for (p, c, n, f) in sorted {
+        let w = (*f as f64).powf(1.0 / art_temp);
         match itab.iter_mut().find(|e| e.0 == *p && e.1 == *n) {
-            Some(e) => e.2.push((c.clone(), true)),
-            None => itab.push((p.clone(), n.clone(), vec![(c.clone(), true)])),
+            Some(e) => e.2.push((c.clone(), w)),
+            None => itab.push((p.clone(), n.clone(), vec![(c.clone(), w)])),
         }
     }
     let mut rtab = vec![];
@@ -636,39 +713,54 @@ fn run_e2e(e: &E2e) -> (Val, Vec<String>) {
     let body: String = e.trigrams.iter().map(|(p, c, n, f)| format!("{p} {c} {n}\t{f}\n")).collect();
     let _ = std::fs::write(&path, body);
     let text = e.words.join(" ");
-    let (seed, charmode, p2) = (e.seed, e.charmode, path.clone());
-    let res = catch_unwind(AssertUnwindSafe(move || {
-        let f = preprocessing(PreprocessingFnConfig::SpellingCorruption(
-            Part::Input,
-            1.0,
-            false,
-            SpellingCorruptionMode::Artificial(if charmode { 1.0 } else { 0.0 }, 2.0, Some(p2.into())),
-        ));
-        let info = TextDataInfo { seed, ..Default::default() };
-        f(TrainData::new(text, None), info).ok().map(|(d, _)| d.verif_input().to_string())
-    }));
+    let mut tags = vec!["e2e".to_string()];
+    if e.trigrams.iter().enumerate().any(|(i, a)| e.trigrams[..i].iter().any(|b| a.0 == b.0 && a.2 == b.2 && a.3 == b.3)) {
+        // two 3-grams of one (prev, next) context with the same frequency: their order inside the
+        // table entry is decided by the tie-break of the sort alone
+        tags.push("e2e-tie".into());
+    }
+    // two independent runs: a fresh closure each (the dictionary is loaded again into a new HashMap),
+    // same text, same seed
+    let mut outs = vec![];
+    for run in 0..2 {
+        let (seed, charmode, p2, text) = (e.seed, e.charmode, path.clone(), text.clone());
+        let res = catch_unwind(AssertUnwindSafe(move || {
+            let f = preprocessing(PreprocessingFnConfig::SpellingCorruption(
+                Part::Input,
+                1.0,
+                false,
+                SpellingCorruptionMode::Artificial(if charmode { 1.0 } else { 0.0 }, 2.0, Some(p2.into())),
+            ));
+            let info = TextDataInfo { seed, ..Default::default() };
+            f(TrainData::new(text, None), info).ok().map(|(d, _)| d.verif_input().to_string())
+        }));
+        outs.push(match res {
+            Ok(Some(t)) => {
+                let ws: Vec<&str> = if t.is_empty() { vec![] } else { t.split(' ').collect() };
+                if run == 0 && ws.iter().zip(e.words.iter()).any(|(a, b)| a != b) {
+                    tags.push("e2e-changed".into());
+                    if e.charmode && e.words.iter().any(|w| w.len() > 1) {
+                        tags.push("nt".into());
+                        tags.push("e2e-chain".into());
+                    }
+                }
+                Val::L(ws.iter().map(|w| Val::str(w)).collect())
+            }
+            Ok(None) => Val::L(vec![Val::I(-776)]),
+            Err(_) => {
+                if run == 0 {
+                    tags.push("panic".into());
+                }
+                Val::panic()
+            }
+        });
+    }
+    if outs[0] != outs[1] {
+        tags.push("e2e-nondet".into());
+    }
     let _ = std::fs::remove_file(&path);
     let _ = std::fs::remove_dir(&dir);
-    let mut tags = vec!["e2e".to_string()];
-    let out = match res {
-        Ok(Some(t)) => {
-            let ws: Vec<&str> = if t.is_empty() { vec![] } else { t.split(' ').collect() };
-            if ws.iter().zip(e.words.iter()).any(|(a, b)| a != b) {
-                tags.push("e2e-changed".into());
-                if charmode && e.words.iter().any(|w| w.len() > 1) {
-                    tags.push("nt".into());
-                    tags.push("e2e-chain".into());
-                }
-            }
-            Val::L(ws.iter().map(|w| Val::str(w)).collect())
-        }
-        Ok(None) => Val::L(vec![Val::I(-776)]),
-        Err(_) => {
-            tags.push("panic".into());
-            Val::panic()
-        }
-    };
-    (out, tags)
+    (Val::L(outs), tags)
 }
 
 const E2E_ALPHA: &[&str] = &["a", "b", "a", "b", "c", "0", ".", "-"];
@@ -745,8 +837,25 @@ fn gen_word(rng: &mut Rng, g: bool, seam: bool) -> String {
     (0..n).map(|_| unit(rng, g, seam)).collect()
 }
 
+/// a weight: small integers (as the first version of the harness), square roots of counts (what
+/// corrupt_spelling computes with temperature 2), random mantissas over a few binades (cumulative sums
+/// then round), and now and then a very small or very large normal number
+fn gen_weight(rng: &mut Rng) -> f64 {
+    match rng.below(12) {
+        0..=3 => rng.range(1, 3) as f64,
+        4..=6 => (rng.range(1, 50) as f64).powf(0.5),
+        7..=9 => {
+            let m = rng.next_u64() & ((1u64 << 52) - 1);
+            let e = 1023 - 3 + rng.below(7) as u64;
+            f64::from_bits((e << 52) | m)
+        }
+        10 => 1e-300 * (1.0 + rng.below(9) as f64),
+        _ => 1e300 * (1.0 + rng.below(3) as f64) / 4.0,
+    }
+}
+
 fn gen_edits(rng: &mut Rng, g: bool, seam: bool) -> Edits {
-    let n = rng.range(1, 3);
+    let n = if rng.chance(1, 5) { rng.range(4, 6) } else { rng.range(1, 3) };
     let mut es: Edits = (0..n)
         .map(|_| {
             let len = match rng.below(10) {
@@ -756,13 +865,18 @@ fn gen_edits(rng: &mut Rng, g: bool, seam: bool) -> Edits {
                 _ => 3,
             };
             let s: String = (0..len).map(|_| unit(rng, g, seam)).collect();
-            (s, !rng.chance(1, 6))
+            (s, if rng.chance(1, 6) { 0.0 } else { gen_weight(rng) })
         })
         .collect();
-    if !es.iter().any(|(_, p)| *p) {
-        es[0].1 = true;
+    if !es.iter().any(|(_, w)| *w > 0.0) {
+        es[0].1 = gen_weight(rng);
     }
     es
+}
+
+/// edits with the weights of the first version of the harness (1, 2, 3, 1, ... / 0)
+fn legacy_edits(l: &[(&str, bool)]) -> Edits {
+    l.iter().enumerate().map(|(i, (s, p))| (s.to_string(), legacy_weight(i, *p))).collect()
 }
 
 fn ctx_of(cl: &[String], i: isize, rng: &mut Rng, g: bool, seam: bool) -> String {
@@ -919,9 +1033,9 @@ impl Prop for C15 {
         for (pi, p) in ctxs[..3].iter().enumerate() {
             for (ci, c) in ctxs[1..].iter().enumerate() {
                 let es: Edits = match (pi + ci) % 3 {
-                    0 => vec![("a".into(), true)],
-                    1 => vec![("ba".into(), true), ("".into(), true)],
-                    _ => vec![("b".into(), true), ("a".into(), false)],
+                    0 => legacy_edits(&[("a", true)]),
+                    1 => legacy_edits(&[("ba", true), ("", true)]),
+                    _ => legacy_edits(&[("b", true), ("a", false)]),
                 };
                 itab.push((p.to_string(), c.to_string(), es));
             }
@@ -933,9 +1047,9 @@ impl Prop for C15 {
                         continue; // some contexts have no entry
                     }
                     let es: Edits = match (pi + ci + ni) % 3 {
-                        0 => vec![(if *c == "a" { "b" } else { "a" }.into(), true)],
-                        1 => vec![("".into(), true), ("ab".into(), true)],
-                        _ => vec![("aba".into(), true)],
+                        0 => legacy_edits(&[(if *c == "a" { "b" } else { "a" }, true)]),
+                        1 => legacy_edits(&[("", true), ("ab", true)]),
+                        _ => legacy_edits(&[("aba", true)]),
                     };
                     rtab.push((p.to_string(), c.to_string(), nx.to_string(), es));
                 }
@@ -1009,7 +1123,7 @@ impl Prop for C15 {
         // outcome sets are pinned in C15_Props.v (outcomes_witness, outcomes_witness_2,
         // outcomes_witness_3: c_ex / c_fd there) the set observed over 800 seeds must be exactly
         // the model's set.
-        let e = |s: &str, p: bool| (s.to_string(), p);
+        let e = |s: &str, p: bool| (s.to_string(), if p { 1.0 } else { 0.0 });
         let c_ex = Cfg {
             g: false,
             kinds: [true; 4],
@@ -1054,7 +1168,7 @@ impl Prop for C15 {
                 let mut c = cfg.clone();
                 c.seed = seed;
                 let d = derive(&c, w, &ex, 1, &mut self.cache);
-                match d.out.nth(1).and_then(|ch| ch.nth(0)).and_then(|st| Some((st.nth(0)?.clusters_to_string()?, st.nth(1)?.as_l()?.iter().filter_map(|x| x.as_usize()).collect::<Vec<_>>()))) {
+                match d.out.nth(0).and_then(|o| o.nth(1)).and_then(|ch| ch.nth(0)).and_then(|st| Some((st.nth(0)?.clusters_to_string()?, st.nth(1)?.as_l()?.iter().filter_map(|x| x.as_usize()).collect::<Vec<_>>()))) {
                     Some(o) => {
                         seen.insert(o);
                     }
